@@ -106,6 +106,20 @@ fn enc_ws(x: f64) -> [i64; 2] {
     enc_w(x / wfactor())
 }
 
+/// repeated edges of one batch are handed over as clones of ONE Arc (callers routinely do `vec![e.clone(), e.clone()]`):
+/// the library must treat them as separate edges, never identify edges by allocation
+pub fn share_equal(es: Vec<E>) -> Vec<E> {
+    let mut out: Vec<E> = vec![];
+    for e in es {
+        let same = out
+            .iter()
+            .find(|p| p.u == e.u && p.v == e.v && p.weight.to_bits() == e.weight.to_bits() && p.attributes == e.attributes)
+            .cloned();
+        out.push(same.unwrap_or(e));
+    }
+    out
+}
+
 pub fn edge_row(e: &Edge<i64, i64>) -> Vec<i64> {
     let w = enc_w(e.weight / wfactor());
     let a = enc_oa(&e.attributes);
@@ -566,6 +580,19 @@ pub fn query(g: &G, t: &mut Toks, o: &mut Out) {
                 o.obs(5040, &rows, &fl);
             }
         }
+        "alg_nbrs" => {
+            // the traversal neighbours the searches see (get_successors_or_neighbors), oracle-only
+            let x = t.i();
+            let r = guard(|| g.get_successors_or_neighbors(x).iter().map(|n| n.name).collect::<Vec<i64>>());
+            match r {
+                None => o.obs(5001, &[vec![PANIC]], &[]),
+                Some(mut v) => {
+                    v.sort();
+                    o.obs(5001, &[vec![0]], &[]);
+                    o.obs(5070, &[v], &[]);
+                }
+            }
+        }
         "alg_cc" | "alg_bc" => {
             let w = t.i() != 0;
             let r = if q == "alg_cc" {
@@ -642,7 +669,7 @@ pub fn mutate(g: &mut G, specs: &GraphSpecs, op: &str, t: &mut Toks, o: &mut Out
         }
         "add_edges" => {
             let k = t.u();
-            let es: Vec<E> = (0..k).map(|_| parse_edge(t)).collect();
+            let es: Vec<E> = share_equal((0..k).map(|_| parse_edge(t)).collect());
             res_code(&guard(|| g.add_edges(es)))
         }
         "add_edge_tuples" => {
@@ -654,7 +681,7 @@ pub fn mutate(g: &mut G, specs: &GraphSpecs, op: &str, t: &mut Toks, o: &mut Out
             let kn = t.u();
             let ns: Vec<Nd> = (0..kn).map(|_| parse_node(t)).collect();
             let ke = t.u();
-            let es: Vec<E> = (0..ke).map(|_| parse_edge(t)).collect();
+            let es: Vec<E> = share_equal((0..ke).map(|_| parse_edge(t)).collect());
             let r = guard(|| G::new_from_nodes_and_edges(ns, es, specs.clone()));
             let c = res_code(&r);
             if let Some(Ok(h)) = r {
